@@ -155,8 +155,9 @@ def real_jax(c):
             mk = dict(name=None, xtol=1e-13, absdelta=1e-15, maxiter=10, cg_kwargs=dict(name=None, **CG_KW))
             upd, _ = ovi.nonlinearly_update_samples(smp, point_estimates=pe, minimize_kwargs=mk)
             out["geovi"] = np.array([_flat(jax.tree_util.tree_map(lambda a: a[i], upd._samples), c) for i in range(len(upd))])
-        else:
-            # genuinely non-linear model: the geoVI sample x* must solve  x − e + L_e(t(x) − t(e)) = ± metric sample
+        elif c["model"] == "tanh":
+            # genuinely non-linear, globally invertible model (t' ∈ (1, 1.25]): the geoVI sample x* must solve
+            # x − e + L_e(t(x) − t(e)) = ± metric sample   (the quadratic model is not injective: no such guarantee)
             mk = dict(name=None, xtol=1e-13, absdelta=1e-15, maxiter=60, cg_kwargs=dict(name=None, **CG_KW))
             upd, _ = ovi.nonlinearly_update_samples(smp, point_estimates=pe, minimize_kwargs=mk)
             gs, mss = [], []
